@@ -368,6 +368,17 @@ pub struct HdrBody {
     pub flag: bool,
 }
 
+/// A header body next to a *stateful* header field (a vector): the recognizer of the last header slot has state that
+/// must be reset when the recognizer of the struct is used again.
+#[derive(Form, Debug, Clone, PartialEq)]
+pub struct HdrVec {
+    #[form(header_body)]
+    pub n: i32,
+    #[form(header)]
+    pub items: Vec<i32>,
+    pub flag: bool,
+}
+
 #[derive(Form, Debug, Clone, PartialEq)]
 pub struct Wrap {
     #[form(header)]
@@ -435,6 +446,8 @@ pub enum TV {
     ShapePair(String, i64),
     ShapeHolder { a: i32, b: String, c: Option<i64>, q: Option<String> },
     VecPlain(Vec<(i32, String, Option<i64>)>),
+    HdrVec { n: i32, items: Vec<i32>, flag: bool },
+    VecHdrVec(Vec<(i32, Vec<i32>, bool)>),
 }
 
 fn eq_std<T: PartialEq>(a: &T, b: &T) -> bool {
@@ -493,6 +506,8 @@ impl TV {
             TV::Tup(..) => "struct_tuple",
             TV::ShapeNil | TV::ShapeCircle(_) | TV::ShapePair(..) | TV::ShapeHolder { .. } => "enum_shape",
             TV::VecPlain(_) => "vec_struct_plain",
+            TV::HdrVec { .. } => "struct_hdr_vec",
+            TV::VecHdrVec(_) => "vec_struct_hdr_vec",
         }
     }
 
@@ -534,6 +549,8 @@ impl TV {
             TV::ShapePair(s, n) => vis.visit(name, Shape::Pair(s.clone(), *n), eq_std),
             TV::ShapeHolder { a, b, c, q } => vis.visit(name, Shape::Holder { p: Plain { a: *a, b: b.clone(), c: *c }, q: q.clone() }, eq_std),
             TV::VecPlain(v) => vis.visit(name, v.iter().map(|(a, b, c)| Plain { a: *a, b: b.clone(), c: *c }).collect::<Vec<Plain>>(), eq_std),
+            TV::HdrVec { n, items, flag } => vis.visit(name, HdrVec { n: *n, items: items.clone(), flag: *flag }, eq_std),
+            TV::VecHdrVec(v) => vis.visit(name, v.iter().map(|(n, items, flag)| HdrVec { n: *n, items: items.clone(), flag: *flag }).collect::<Vec<HdrVec>>(), eq_std),
         }
     }
 
@@ -779,6 +796,17 @@ impl TV {
                         out.push(TV::VecPlain(c));
                     }
                 }
+            }
+            TV::HdrVec { n, items, flag } => {
+                if !items.is_empty() {
+                    out.push(TV::HdrVec { n: *n, items: items[1..].to_vec(), flag: *flag });
+                }
+                if *n != 0 {
+                    out.push(TV::HdrVec { n: 0, items: items.clone(), flag: *flag });
+                }
+            }
+            TV::VecHdrVec(v) => {
+                out.extend(vecs(v).into_iter().map(TV::VecHdrVec));
             }
         }
         // See the generator: `vec![None]` is not representable in Recon.
